@@ -132,10 +132,12 @@ def parse_operand(c):
         txt = c.s[c.i:j].strip(); c.i = j
         return ('const', txt)
     # bare function item / path operand (e.g. `new_int`, `builtins::fns::print as fn(..) (..)`)
-    m = re.compile(r'[A-Za-z_][\w:]*').match(c.s, c.i)
-    if m and not c.s.startswith(('copy', 'move'), c.i):
-        c.i = m.end()
-        return ('const', m.group())
+    m = re.compile(r'[A-Za-z_<][\w:]*').match(c.s, c.i)
+    if m and not c.s.startswith(('copy ', 'move '), c.i):
+        # a bare function-item path, possibly with `<impl T>` segments and generic arguments: up to the next top-level `,` / `)`
+        j = scan_balanced(c.s, c.i, [',', ')'])
+        txt = c.s[c.i:j].strip(); c.i = j
+        return ('const', txt)
     raise SyntaxError("bad operand at %r" % c.rest()[:80])
 
 BINOPS = {'Add','Sub','Mul','Div','Rem','BitXor','BitAnd','BitOr','Shl','Shr','Eq','Lt','Le','Ne','Ge','Gt','Cmp','Offset',
@@ -355,6 +357,9 @@ def split_items(text):
             j = i + 1
             while j < n and lines[j] != '}': j += 1
             items.append((ln, lines[i+1:j])); i = j + 1; continue
+        m = re.match(r'^(?:const|static) (?:mut )?([\w:]+): ([^=]+) = const (.*);$', ln)
+        if m:
+            SIMPLE_CONSTS[m.group(1)] = m.group(3); i += 1; continue
         m = re.match(r'^alloc(\d+) \(.*size: (\d+).*\) \{$', ln)
         if m:
             j = i + 1; data = []
@@ -437,6 +442,7 @@ def load(path):
     return bodies, allocs
 
 DUPS = {}
+SIMPLE_CONSTS = {}
 
 if __name__ == '__main__':
     bodies, allocs = load(sys.argv[1])
